@@ -625,6 +625,39 @@ pub fn next_lifetime<T: Iterator<Item = TokenTree>>(source: &mut Peekable<T>) ->
     })
 }
 
+/// A generic argument: a type, or a const argument written as a literal (`4`, `0x10`, `'x'`), a negative literal
+/// (`-1`) or a block (`{ N + 1 }`). A const argument is kept as a name that prints back as written (an integer
+/// literal as its value).
+fn next_generic_argument<T: Iterator<Item = TokenTree> + Clone>(
+    source: &mut Peekable<T>,
+) -> Option<Type> {
+    let text = match source.peek() {
+        Some(TokenTree::Literal(lit)) => {
+            let lit = lit.to_string();
+            parse_int_literal(&lit).map(|v| v.to_string()).unwrap_or(lit)
+        }
+        Some(TokenTree::Punct(p)) if p.as_char() == '-' => {
+            let mut tmp = source.clone();
+            tmp.next();
+            let Some(TokenTree::Literal(lit)) = tmp.peek() else {
+                return next_type(source);
+            };
+            let lit = lit.to_string();
+            source.next();
+            format!("-{}", parse_int_literal(&lit).map(|v| v.to_string()).unwrap_or(lit))
+        }
+        Some(TokenTree::Group(group)) if group.delimiter() == Delimiter::Brace => group.to_string(),
+        _ => return next_type(source),
+    };
+    source.next();
+    Some(Type {
+        ident: Category::Named { path: text },
+        wraps: None,
+        ref_type: None,
+        as_other: None,
+    })
+}
+
 fn next_type<T: Iterator<Item = TokenTree> + Clone>(mut source: &mut Peekable<T>) -> Option<Type> {
     fn as_associated_definition<T: Iterator<Item = TokenTree> + Clone>(
         source: &mut Peekable<T>,
@@ -1035,10 +1068,12 @@ fn next_type<T: Iterator<Item = TokenTree> + Clone>(mut source: &mut Peekable<T>
             });
         }
 
-        let mut generics =
-            vec![next_type(source).expect("Expecting at least one generic argument")];
+        let mut generics = vec![next_generic_argument(source)
+            .expect("Expecting at least one generic argument")];
         while let Some(_comma) = next_exact_punct(&mut source, ",") {
-            generics.push(next_type(source).expect("Expecting generic argument after comma"));
+            generics.push(
+                next_generic_argument(source).expect("Expecting generic argument after comma"),
+            );
         }
 
         let as_other = as_other_type(source).map(Box::new);
